@@ -21,7 +21,7 @@ ASSUMPTIONS = [
 ]
 TIME_CAP = {"quick": 60, "thorough": 900}
 
-TYPED = [1, 1.0, True, 0, 0.0, False, 2, "1", "x", None, [1], [1, 2], [1.0], ["x"], 2.5]
+TYPED = [1, 1.0, True, 0, 0.0, False, 2, -1, -1.0, -2, -2.0, "1", "x", None, [1], [1, 2], [1.0], ["x"], 2.5]
 
 
 def rand_sp(rng):
